@@ -31,8 +31,8 @@ def handle_check(prop, tier, seed):
     results = []
     # 1. exhaustive TLC check of the design model against the laws + program generation (G)
     ops, depth, handles, allocs, maxlen = design_cfg(prop, tier)
-    mc = D.run_model("%s_mc" % prop, depth, handles, allocs, maxlen, ops, sample_k=300 if tier == "quick" else 60, seed=seed,
-                     timeout=900 if tier == "quick" else 3000)
+    mc = D.run_model("%s_mc" % prop, depth, handles, allocs, maxlen, ops, sample_k=300 if tier == "quick" else 1500, seed=seed,
+                     timeout=900 if tier == "quick" else 6000)
     if mc["actions_never_taken"]:
         raise C.ToolError("vacuity: design actions never taken: %s" % mc["actions_never_taken"])
     pf = os.path.join(C.workdir("design"), "%s_programs.ndjson" % prop)
@@ -98,7 +98,10 @@ def cursor_check(prop, tier, seed):
             raise C.ToolError("generator %s emitted no program" % tag)
         results.append(K.run_and_validate("%s_%s" % (prop, tag), pick(progs, take if q else take * 10, seed)))
 
+    allty = ["slice", "bytes", "bytesmut", "deque", "chunked", "cursor"]
     if prop == "C09":
+        gens.append(K.design_mc("C09_design", 2, 2, 1 if q else 2, [0, 2, 3], ["remaining", "chunk", "advance", "chunks_vectored", "copy_to_bytes", "try_copy_to_slice"],
+                                [], [0], leaf_types=allty))
         gen("bfs", "buf", 1, 2, 2, [0, 3], BUF_OPS, [], [0], 60 if q else 8, take=3000)
         gen("sim", "buf", 3, 4, 3, [0, 1, 3], BUF_OPS, [], [0], 1, simulate=(2500 if q else 40000, 30), take=2500)
         gen("vec17", "buf", 2, 2, 2, [3, 18], ["chunks_vectored", "copy_to_bytes", "advance"], [], [0], 1, simulate=(800 if q else 8000, 30), take=800)
@@ -106,14 +109,25 @@ def cursor_check(prop, tier, seed):
         gen("takechain", "buf", 3, 3, 1, [2, 3], ["chunks_vectored", "copy_to_bytes", "advance", "remaining", "chunk"], [], [0], 4 if q else 100,
             take=3000, leaf_types=["slice"] if q else ["slice", "deque"], wraps=(), root_limit_only=True)
     elif prop == "C10":
+        gens.append(K.design_mc("C10_design", 1, 2, 1 if q else 2, [0, 1, 3, 9] if q else [0, 1, 3, 9, 17], ["get"], getters, list(range(0, 9)),
+                                leaf_types=["slice", "deque", "chunked"], wraps=()))
         gen("bfs", "buf", 1, 2, 1, [0, 1, 9, 17], ["get"], getters, list(range(0, 9)), 400 if q else 40, take=4000)
+        # every getter through every forwarding wrapper (&mut B, Box<B>) and Take, on data where byte order matters
+        gen("fwd", "buf", 1, 1, 1, [17], ["get"], getters, list(range(0, 9)), 2 if q else 1, take=12000)
         gen("sim", "buf", 3, 3, 3, [1, 3, 9], ["get", "advance"], getters, list(range(0, 9)), 1, simulate=(1500 if q else 30000, 30), take=1500)
     elif prop == "C11":
+        gens.append(K.design_mc("C11_design", 1 if q else 2, 2, 1 if q else 2, [0, 1, 3], ["remaining_mut", "chunk_mut_len", "put_slice", "put", "put_buf"],
+                                putters if q else ["put_u8", "put_u16_le", "put_uint", "put_i32", "put_int_le", "put_u64", "put_f32_ne"], [0, 3, 8],
+                                leaf_types=["slice", "uninit", "vec", "bytesmut"], wraps=("ref",), side="mut"))
         gen("bfs", "mut", 1, 2, 1, [0, 1, 3, 9], MUT_OPS, putters, list(range(0, 9)), 100 if q else 10, take=4000)
         gen("sim", "mut", 3, 3, 3, [1, 3, 9], MUT_OPS, putters, list(range(0, 9)), 1, simulate=(1500 if q else 30000, 30), take=1500)
     elif prop == "C12":
+        gens.append(K.design_mc("C12_design", 3 if not q else 2, 2, 1 if q else 2, [2, 3], ["remaining", "advance", "copy_to_bytes", "chunks_vectored", "try_copy_to_slice"],
+                                [], [0], leaf_types=["slice", "deque", "bytes"], wraps=("ref",)))
         gen("bufsim", "buf", 4 if not q else 3, 4, 4, [0, 2, 3], ["advance", "copy_to_slice", "copy_to_bytes", "read", "set_limit", "consume", "remaining", "get", "chunks_vectored", "chunk"],
             ["get_u16", "get_u8", "try_get_u32_le"], [0], 1, simulate=(2500 if q else 40000, 40), take=2500)
+        gens.append(K.design_mc("C12_sink_design", 2, 2, 1, [0, 1, 3], ["remaining_mut", "chunk_mut_len", "put_slice", "put_buf"], [], [0],
+                                leaf_types=["slice", "vec", "bytesmut"], wraps=("ref",), side="mut"))
         gen("mutsim", "mut", 4 if not q else 3, 4, 4, [0, 2, 3], ["put_slice", "write", "set_limit", "remaining_mut", "put_bytes", "put", "put_buf", "chunk_mut_len"],
             ["put_u16", "put_u8", "put_u32_le"], [0], 1, simulate=(2500 if q else 40000, 40), take=2500)
         gen("bfs", "buf", 2, 2, 1 if q else 2, [2], ["advance", "read", "set_limit", "copy_to_bytes"], [], [0], 20 if q else 40, take=2500)
@@ -135,7 +149,7 @@ def thread_check(prop, tier, seed):
     t0 = time.time()
     q = tier == "quick"
     progs = T.programs(tier, seed)
-    r = T.run("%s_dfs" % prop, progs, 40 if q else 600, free_runs=0, random_runs=20 if q else 100, seed=seed)
+    r = T.run("%s_dfs" % prop, progs, 40 if q else 150, free_runs=0, random_runs=20 if q else 40, seed=seed)
     results = [r]
     if not q:
         results.append(T.run("%s_free" % prop, progs[:400], 1, free_runs=20))
@@ -195,8 +209,8 @@ def config_check(prop, tier, seed):
     t0 = time.time()
     q = tier == "quick"
     # programs: the design model's edge cover sample + a fixed random walk
-    ops, depth, handles, allocs, maxlen = design_cfg("C01", tier)
-    mc = D.run_model("C16_mc", depth, handles, allocs, maxlen, ops, sample_k=300 if q else 60, seed=seed)
+    ops, depth, handles, allocs, maxlen = design_cfg("C01", "quick")
+    mc = D.run_model("C16_mc", depth, handles, allocs, maxlen, ops, sample_k=300, seed=seed)
     pf = os.path.join(C.workdir("design"), "C16_programs.ndjson")
     D.write_programs(mc["programs"], pf, limit=2000 if q else 20000, seed=seed)
     rand = ["--random", "--seed", str(seed * 1000 + 16), "--nprog", "150" if q else "1500", "--steps", "40", "--maxh", "6", "--maxlen", "12",
